@@ -11,10 +11,13 @@ error monad through the generators.
 
 namespace DW
 
-/-- `(derive_where.generics.is_empty() || derive_where.any_custom_bound())`: the
-condition under which `Clone` and `PartialOrd` delegate to `Copy` / `Ord`. -/
+/-- `DeriveWhere::only_custom_bounds`: the condition under which `Clone` and
+`PartialOrd` delegate to `Copy` / `Ord` (every impl of the attribute then has
+the same where-clause). -/
 def DeriveWhere.shortcut (dw : DeriveWhere) : Bool :=
-  dw.generics.isEmpty || dw.anyCustomBound
+  dw.generics.all fun g => match g with
+    | .custom _ => true
+    | .noBound _ _ => false
 
 /-- Variants with their positions. -/
 def Item.indexed (it : Item) : List (Nat × Data) :=
@@ -304,6 +307,17 @@ def cloneSignature (item : Item) (dw : DeriveWhere) (arms : List Arm) : Expr :=
 
 /-! ## `trait_/debug.rs` -/
 
+/-- `Member: Display` (un-raws identifiers). -/
+def Member.display : Member → String
+  | .named i => i.name
+  | .unnamed n => toString n
+
+/-- Text of the string literals in the expansion: `data.ident.unraw().to_string()`
+and `member.to_string()`. -/
+def Item.strText (it : Item) : StrLit → String
+  | .dataName k => ((it.variants.getD k default).ident).name
+  | .fieldName k i => (((it.variants.getD k default).fields.getD i default).member).display
+
 /-- `Debug::build_body`. -/
 def debugBody (k : Nat) (d : Data) : List Arm :=
   let fs := d.iterFields .debug
@@ -365,7 +379,7 @@ def hashBody (k : Nat) (d : Data) : List Arm :=
 
 /-- `Zeroize::build_body`. -/
 def zeroizeBody (k : Nat) (d : Data) : List Arm :=
-  if d.isEmpty .zeroize then []
+  if d.isEmpty .zeroize then [.mk (.ctor k .self_ false) (.block [] .unit) false]
   else match d.shape with
     | .named | .tuple =>
       [.mk (.ctor k .self_ true)
@@ -383,7 +397,7 @@ def zeroizeSignature (item : Item) (arms : List Arm) : Expr :=
 
 /-- `ZeroizeOnDrop::build_body` with `zeroize-on-drop`. -/
 def zodArms (k : Nat) (d : Data) : List Arm :=
-  if d.isEmpty .zeroizeOnDrop then []
+  if d.isEmpty .zeroizeOnDrop then [.mk (.ctor k .self_ false) (.block [] .unit) false]
   else match d.shape with
     | .named | .tuple =>
       [.mk (.ctor k .self_ true)
